@@ -10,8 +10,9 @@ from rdflib import URIRef
 
 from pyshacl.constraints.constraint_component import ConstraintComponent
 from pyshacl.consts import SH, SH_deactivated, SH_message, SH_select
-from pyshacl.errors import ConstraintLoadError, ValidationFailure
+from pyshacl.errors import ConstraintLoadError, ReportableRuntimeError, ValidationFailure
 from pyshacl.helper import get_query_helper_cls
+from pyshacl.helper.sparql_query_helper import query_with_shapes_graph_text
 from pyshacl.pytypes import GraphLike, SHACLExecutor
 from pyshacl.shape import Shape
 
@@ -167,7 +168,9 @@ class SPARQLBasedConstraint(ConstraintComponent):
         return non_conformant, reports
 
     def _validate_sparql_query(self, query, init_binds, target_graph):
-        results = target_graph.query(query, initBindings=init_binds)
+        results = query_with_shapes_graph_text(target_graph, query, init_binds)
+        if results.type != "SELECT":
+            raise ReportableRuntimeError("The sh:select of a SPARQL-based constraint must be a SELECT query.")
         if not results or len(results.bindings) < 1:
             return []
         violations = []
